@@ -85,6 +85,7 @@ def minsert {β} (m : List (Bytes × β)) (k : Bytes) (v : β) : List (Bytes × 
 
 def getKey : MP → R Bytes
   | .raw bs => .ok bs
+  | .nil => .ok []
   | .arr _ => .exotic
   | _ => .err
 
